@@ -231,7 +231,8 @@ def apply_damage(w, sc, d):
     elif k == 'esc-surrogate':
         repl_path('esc\\uD800x')
     elif k == 'esc-nul':
-        repl_path('esc\\x00x')
+        # (in the file name, in a directory component, or both)
+        repl_path(('esc\\x00x', 'dir\\x00name/file', 'a/b\\x00/c', 'd\\x00/e\\x00')[idx % 4])
     elif k == 'esc-bad':
         repl_path('esc\\q')
     elif k == 'empty-path':
